@@ -797,4 +797,71 @@ theorem shared_cache_counterexample :
   rintro ⟨c, rest, h, _⟩
   simp at h
 
+/-! ## 10. Sparse checkout (`apply_included_paths`, after the repair of the two sparse findings) -/
+
+/-- **`sparse_confined`** — step 2 of `apply_included_paths` as coded now (`Gen.sparseGuarded`), for EVERY file system,
+root, validator, index contents (any names, modes, skip-worktree bits): every mkdir / unlink / symlink /
+open-for-write / chmod acts, after symlink resolution, strictly below the root and outside `root/.git`. -/
+theorem sparse_confined (fold : List Nat → List Nat) (hf : FoldAsciiOk fold) (v : Validator) (root : PPath) :
+    ∀ (entries : List (Entry × Bool)) (st : St),
+      ∀ m ∈ (sparseApply (v.run fold) root entries st).1.log, m ∈ st.log ∨ Confined root m.target := by
+  have hg : sparseGuarded = true := rfl
+  unfold sparseApply
+  rw [hg]
+  have step : ∀ (e : Entry) (x : Bool) (st : St), ∀ m ∈ (sparseEntryG true (v.run fold) root e x st).1.log,
+      m ∈ st.log ∨ Confined root m.target := by
+    intro e x st m hm
+    by_cases hval : validatePath (v.run fold) e.path = true
+    · have hsafe := validated_safe fold hf v e.path hval
+      obtain ⟨lead, last, hsplit⟩ : ∃ lead last, splitOn pathSep e.path = lead ++ [last] :=
+        ⟨_, _, (List.dropLast_concat_getLast hsafe.1).symm⟩
+      have hE := sparseEntryG_guarded_log (root := root) (v.run fold) e x st lead last hsplit (by rw [← hsplit]; exact hsafe.2.1)
+      rcases hE m hm with h | h
+      · exact Or.inl h
+      · exact Or.inr (lexMut_confined ⟨lead ++ [last], by rw [← hsplit]; exact hsafe, Or.inl h⟩)
+    · have hv : validatePath (v.run fold) e.path = false := by simpa using hval
+      cases x <;> simp only [sparseEntryG, deleteOldG, hv, if_true, Bool.false_eq_true, if_false] at hm <;> exact Or.inl hm
+  intro entries
+  induction entries with
+  | nil => intro st m hm; exact Or.inl hm
+  | cons ex es ih =>
+    obtain ⟨e, x⟩ := ex
+    intro st m hm
+    simp only [sparseApplyG] at hm
+    have h1 := step e x st
+    generalize sparseEntryG true (v.run fold) root e x st = r at *
+    obtain ⟨st1, e1⟩ := r
+    cases e1 with
+    | some err => exact h1 m hm
+    | none =>
+      simp only [Step.andThen] at hm
+      rcases ih st1 m hm with h | h
+      · exact h1 m h
+      · exact Or.inr h
+
+/-- **Regression witnesses for the OLD sparse code** (replayed on the real code every run: corpus/C17/sparse-*.json).
+(1) the index path `../o/p` (copied in by a mixed reset) is materialised OUTSIDE the work tree; (2) with
+`w/d -> ../o` on disk the excluded index path `d/x` is removed from `o`; (3) the included path `d/p` is created in
+`o`.  The code as it stands refuses (1), does nothing for (2) and refuses (3). -/
+theorem sparse_old_counterexample :
+    (sparseEntryG false validateNtfs [[119]] ⟨[46, 46, 47, 111, 47, 112], 0o100644, [7]⟩ false
+        { fs := exFs, log := [], safe := [] }).1.log = [.write [[111], [112]]] ∧
+    (sparseEntryG false validateNtfs [[119]] ⟨[100, 47, 120], 0o100644, [7]⟩ true
+        { fs := exFs, log := [], safe := [] }).1.log = [.unlink [[111], [120]]] ∧
+    (sparseEntryG false validateNtfs [[119]] ⟨[100, 47, 112], 0o100644, [7]⟩ false
+        { fs := exFs, log := [], safe := [] }).1.log = [.write [[111], [112]]] ∧
+    ¬ Confined [[119]] [[111], [112]] ∧
+    (sparseEntryG true validateNtfs [[119]] ⟨[46, 46, 47, 111, 47, 112], 0o100644, [7]⟩ false
+        { fs := exFs, log := [], safe := [] }) = ({ fs := exFs, log := [], safe := [] }, some .invalidPath) ∧
+    (sparseEntryG true validateNtfs [[119]] ⟨[100, 47, 120], 0o100644, [7]⟩ true
+        { fs := exFs, log := [], safe := [] }).1.log = [] ∧
+    (sparseEntryG true validateNtfs [[119]] ⟨[100, 47, 112], 0o100644, [7]⟩ false
+        { fs := exFs, log := [], safe := [] }).2 = some .invalidPath := by
+  refine ⟨by decide, by decide, by decide, ?_, ?_, by decide, by decide⟩
+  · rintro ⟨c, rest, h, _⟩
+    simp at h
+  · simp only [sparseEntryG, if_true, Bool.false_eq_true, if_false]
+    have : validatePath validateNtfs [46, 46, 47, 111, 47, 112] = false := by decide
+    simp [this]
+
 end Dulwich.Props.C17
